@@ -72,6 +72,15 @@ def _ints(vm, m, c, args):
             if n == 'leading_ones': return ret(m, len(bits) - len(bits.lstrip('1')))
             if n == 'trailing_ones': return ret(m, len(bits) - len(bits.rstrip('1')))
             return ret(m, bits.count('1') if n == 'count_ones' else bits.count('0'))
+        if n in ('rotate_left', 'rotate_right', 'swap_bytes', 'reverse_bits'):
+            _conc(x); w = _bits(t); u_ = x & ((1 << w) - 1)
+            if n in ('rotate_left', 'rotate_right'):
+                k_ = a[1] % w
+                if n == 'rotate_right': k_ = (w - k_) % w
+                r_ = ((u_ << k_) | (u_ >> (w - k_))) & ((1 << w) - 1) if k_ else u_
+            elif n == 'swap_bytes': r_ = int.from_bytes(u_.to_bytes(w // 8, 'little'), 'big')
+            else: r_ = int(format(u_, '0%db' % w)[::-1], 2)
+            return ret(m, r_ - (1 << w) if lo < 0 and r_ > hi else r_)
         if n in ('wrapping_add', 'wrapping_sub', 'wrapping_mul', 'wrapping_neg'):
             r = {'wrapping_add': lambda: x + a[1], 'wrapping_sub': lambda: x - a[1], 'wrapping_mul': lambda: x * a[1], 'wrapping_neg': lambda: -x}[n]()
             return ret(m, _wrap(r, t))
@@ -462,6 +471,7 @@ def _slices(vm, m, c, args):
     except (VMError, Unmodelled): return NotImplemented
     cnt = s.count
     def refs(a=0, b=None): return [s.elem_ref(k) for k in range(a, cnt if b is None else b)]
+    if n in ('chunks_mut', 'chunks_exact_mut', 'rchunks_mut'): n = n[:-4]
     if n in ('windows', 'chunks', 'chunks_exact', 'rchunks'):
         k = args[1]
         if not isinstance(k, int): raise Unmodelled('symbolic ' + n + ' size')
@@ -564,6 +574,7 @@ def _slices(vm, m, c, args):
     if n in ('concat',):
         out = []
         for part in _items(vm, m, s):
+            if isinstance(part, Seq): out += list(part.items); continue
             ps = _slice_of(vm, m, part); out += _items(vm, m, ps)
         return ret(m, Seq(out))
     if n in ('is_sorted', 'is_sorted_by', 'is_sorted_by_key'):
@@ -739,7 +750,7 @@ def _vecs(vm, m, c, args):
             if k != 'ret': outs.append((m1, k, acc)); continue
             cur = vm.read_at(m1, r.cell, r.path); vm.write_at(m1, r.cell, list(r.path), Seq(list(cur.items) + acc)); outs.append((m1, 'ret', UNIT))
         return outs
-    if re.match(r'^<Vec<.*> as (?:From|Into)<.*>>::(from|into)$', c):
+    if re.match(r'^<Vec<.*> as (?:From|Into)<.*>>::(from|into)$', c) or re.match(r'^<&(?:mut )?\[.*\] as Into<Vec<.*>>>::into$', c):
         v = args[0]
         if isinstance(v, (Ref, SliceRef)):
             try: s = _slice_of(vm, m, v); return ret(m, Seq(_items(vm, m, s)))
@@ -794,15 +805,41 @@ def _misc(vm, m, c, args):
                 return liter.dispatch(vm, m, '<X as Iterator>::' + mm.group(1), [Ref(r.cell, r.path + (('f', 0),))] + list(args[1:]))
         if isinstance(v, Struct) and v.ty == 'ChunksExact': return liter.dispatch(vm, m, '<X as Iterator>::' + c.split('>::', 1)[1], [v.f[0]] + list(args[1:]))
     if re.match(r'^<ChunksExact<.*> as IntoIterator>::into_iter$', c): return ret(m, args[0].f[0])
+    mm = re.match(r'^<(.+) as (PartialOrd|Ord)(<.+>)?>::(lt|le|gt|ge|max|min|clamp)$', c)
+    if mm and not re.match(r'^&?' + INT + '$|^&?f(64|32)$', mm.group(1)):
+        t, tr, u, meth = mm.groups()
+        if meth in ('lt', 'le', 'gt', 'ge'):
+            outs = []
+            for (m1, k, r) in _partial_cmp(vm, m, t, u, args[0], args[1]):
+                if k != 'ret': outs.append((m1, k, r)); continue
+                o = None if r.name == 'None' else r.f[0].idx
+                outs.append((m1, 'ret', o is not None and {'lt': o < 0, 'le': o <= 0, 'gt': o > 0, 'ge': o >= 0}[meth]))
+            return outs
+        if meth in ('max', 'min') and tr == 'Ord':
+            outs = []
+            for (m1, k, r) in vm.call(m, '<%s as Ord>::cmp' % t, [Ref(m.alloc(args[0])), Ref(m.alloc(args[1]))]):
+                if k != 'ret': outs.append((m1, k, r)); continue
+                # max returns the second argument when equal, min the first
+                outs.append((m1, 'ret', (args[1] if r.idx <= 0 else args[0]) if meth == 'max' else (args[0] if r.idx <= 0 else args[1])))
+            return outs
+    # comparison traits on references compare the referents: <&T as PartialEq<&U>>::eq(&&T, &&U) = <T as PartialEq<U>>::eq(&T, &U)
+    mm = re.match(r"^<&(?:'\w+ )?(?:mut )?(.+?) as (PartialEq|PartialOrd|Ord)(?:<&(?:'\w+ )?(?:mut )?(.+)>)?>::(\w+)$", c)
+    if mm and all(isinstance(a, Ref) for a in args[:2]):
+        t, tr, u, meth = mm.groups(); inner = [vm.read_at(m, a.cell, a.path) for a in args[:2]]
+        if all(isinstance(a, (Ref, SliceRef, Str)) for a in inner):
+            return vm.call(m, '<%s as %s%s>::%s' % (t, tr, '<%s>' % u if u else '', meth), inner + list(args[2:]))
     # Box
     if re.match(r'^Box::<.*>::new$', c): return NotImplemented
     mm = re.match(r'^<Box<(.*)> as Clone>::clone$', c)
     if mm:
-        inner = _d(vm, m, args[0]); t = mm.group(1)
-        if isinstance(inner, (int, bool, Fl, Str)) or is_sym(inner): return ret(m, inner)
-        return vm.call(m, '<%s as Clone>::clone' % t, [args[0] if not isinstance(inner, Struct) or inner.ty != 'Box' else inner])
+        b = vm.read_at(m, args[0].cell, args[0].path) if isinstance(args[0], Ref) else args[0]
+        while isinstance(b, Ref): b = vm.read_at(m, b.cell, b.path)
+        if isinstance(b, Struct) and b.ty == 'Box' and b.f and isinstance(b.f[0], Struct) and b.f[0].f and isinstance(b.f[0].f[0], Ref):
+            src = b.f[0].f[0]; val = vm.read_at(m, src.cell, src.path)       # values are immutable: the copy may share structure
+            return ret(m, Struct((Struct((Ref(m.alloc(val)),)),) + tuple(b.f[1:]), 'Box'))
+        return NotImplemented
     # String
-    if re.match(r'^<String as From<&str>>::from$|^<str as ToOwned>::to_owned$|^<String as Clone>::clone$|^<&str as Into<String>>::into$|^<impl str>::(to_string|to_owned)$|^String::from_str$', c): return ret(m, _d(vm, m, args[0]))
+    if re.match(r'^<String as From<&str>>::from$|^<str as ToOwned>::to_owned$|^<String as Clone>::clone$|^<&str as Into<String>>::into$|^<impl str>::(to_string|to_owned)$|^String::from_str$|^<(?:str|&str|String) as ToString>::to_string$', c): return ret(m, _d(vm, m, args[0]))
     if c == 'String::new': return ret(m, Str(''))
     mm = re.match(r'^String::(\w+)$', c) or re.match(r'^<impl str>::(\w+)$', c)
     if mm and args:
@@ -822,6 +859,9 @@ def _misc(vm, m, c, args):
                 while isinstance(vm.read_at(m, r.cell, r.path), Ref): r = vm.read_at(m, r.cell, r.path)
                 vm.write_at(m, r.cell, list(r.path), Str('')); return ret(m, UNIT)
             if n in ('to_uppercase', 'to_lowercase', 'trim'): return ret(m, Str(getattr(sv.s, {'to_uppercase': 'upper', 'to_lowercase': 'lower', 'trim': 'strip'}[n])()))
+    if re.match(r'^<String as Add<&str>>::add$', c):
+        a, b = _d(vm, m, args[0]), _d(vm, m, args[1])
+        if isinstance(a, Str) and isinstance(b, Str): return ret(m, Str(a.s + b.s))
     mm = re.match(r'^<(?:String|str|&str) as PartialEq<(?:String|str|&str)>>::(eq|ne)$', c) or re.match(r'^<(String|str|&str) as PartialEq>::(eq|ne)$', c)
     if mm:
         a, b = _d(vm, m, args[0]), _d(vm, m, args[1])
@@ -857,3 +897,21 @@ def _misc(vm, m, c, args):
     mm = re.match(r'^<(.*) as Default>::default$', c)
     if mm and (mm.group(1).startswith('Option<') or mm.group(1) in ('String', 'bool', '()') or mm.group(1).startswith('Vec<')): return _default(vm, m, mm.group(1))
     return NotImplemented
+
+
+def _partial_cmp(vm, m, t, u, a, b):
+    """partial_cmp of two references: tuples lexicographically, everything else through the type's own (derived) partial_cmp"""
+    if t.startswith('('):
+        va, vb = _d(vm, m, a), _d(vm, m, b); cur = [(m, 0)]
+        for x, y in zip(va.f, vb.f):
+            nxt = []
+            for (m0, o) in cur:
+                if o != 0: nxt.append((m0, o)); continue
+                if isinstance(x, Fl):
+                    for (m1, k, r) in _floats(vm, m0, '<f64 as PartialOrd>::partial_cmp', [x, y]): nxt.append((m1, None if r.name == 'None' else r.f[0].idx))
+                else:
+                    from .liter import _cmp
+                    nxt += _cmp(vm, m0, x, y)
+            cur = nxt
+        return [(m0, 'ret', NONE() if o is None else SOME(_ordering(o))) for (m0, o) in cur]
+    return vm.call(m, '<%s as PartialOrd%s>::partial_cmp' % (t, u or ''), [a, b])
